@@ -295,6 +295,7 @@ def optimizeSkipRule (g : Grammar) (rules : List Rule) : List Rule :=
     let r : Rule := { name := "SKIP", mod := SILENT + ATOMIC, body := body, kind := .grammar }
     if rules.any (·.name == "SKIP") then rules.map fun x => if x.name == "SKIP" then r else x
     else rules ++ [r]
+  if rules.any (·.name == "SKIP") then rules else
   match comment, ws with
   | some _, some _ => rules
   | some c, none => if hasBit c.mod SILENT then setSkip (.rep c.body) else rules
